@@ -7,6 +7,8 @@
 use vstd::prelude::*;
 use std::borrow::Borrow;
 use vstd::std_specs::cmp::{PartialEqSpec, PartialOrdSpec, OrdSpec};
+use vstd::std_specs::ops::{AddSpec, ShrSpec, ShlSpec};
+use vstd::std_specs::convert::FromSpec;
 //@recursor file=crates/oxidd-rules-bdd/src/recursor.rs
 verus! {
 
@@ -709,6 +711,61 @@ pub broadcast proof fn lemma_lpopped_id(ls: Tree, until: int)
 {}
 pub broadcast group pick_lemmas { lemma_pick_ok_mk, lemma_pick_ok_leaf, lemma_pick_ok_ok, lemma_lit_pol_mk, lemma_lit_pol_leaf, lemma_pick_ok_lpopped, lemma_pick_ok_step, lemma_lit_pol_lpopped_b, lemma_lpopped_mk, lemma_lpopped_id, lemma_lpopped_ok }
 
+// ---------- model counting (C12) ----------
+pub open spec fn pow2(k: nat) -> int decreases k { if k == 0 { 1 } else { 2 * pow2((k - 1) as nat) } }
+pub broadcast proof fn lemma_pow2_1() ensures #[trigger] pow2(1) == 2 { assert(pow2(0) == 1); }
+pub broadcast group count_lemmas { lemma_pow2_1 }
+/// abstract numeric value of a count
+pub trait NumView { spec fn nv(&self) -> int; }
+pub trait IsFloatingPoint { const MIN_EXP: i32; }
+pub trait SatCountNumber: Clone + From<u32> + std::ops::Add<Self, Output = Self> + std::ops::Shl<u32, Output = Self> + std::ops::Shr<u32, Output = Self> + IsFloatingPoint + NumView {}
+/// ASSUMED model of the number type: exact naturals, `>> k` is floor division by 2^k, `<< k` multiplication.
+/// (Checked for Saturating<u64|u128> and Natural within their representable range by Kani suite core_num.)
+pub open spec fn num_ok<N: SatCountNumber>() -> bool {
+    &&& N::obeys_add_spec()
+    &&& forall|a: N, b: N| #[trigger] a.add_req(b)
+    &&& forall|a: N, b: N| (#[trigger] a.add_spec(b)).nv() == a.nv() + b.nv()
+    &&& <N as ShrSpec<u32>>::obeys_shr_spec()
+    &&& forall|a: N, k: u32| #[trigger] a.shr_req(k)
+    &&& forall|a: N, k: u32| (#[trigger] a.shr_spec(k)).nv() == a.nv() / pow2(k as nat)
+    &&& <N as ShlSpec<u32>>::obeys_shl_spec()
+    &&& forall|a: N, k: u32| #[trigger] a.shl_req(k)
+    &&& forall|a: N, k: u32| (#[trigger] a.shl_spec(k)).nv() == a.nv() * pow2(k as nat)
+    &&& <N as FromSpec<u32>>::obeys_from_spec()
+    &&& forall|v: u32| (#[trigger] <N as FromSpec<u32>>::from_spec(v)).nv() == v as int
+    &&& forall|a: N, b: N| cloned(a, b) ==> #[trigger] a.nv() == #[trigger] b.nv()
+}
+/// what the recursion computes: terminal value `tv` for true, 0 for false, the mean of the children at inner nodes
+pub open spec fn scnt(t: Tree, tv: int) -> int decreases t {
+    match t {
+        Tree::Leaf(b) => if b { tv } else { 0 },
+        Tree::Inner(_, a, b) => (scnt(*a, tv) + scnt(*b, tv)) / 2,
+    }
+}
+pub broadcast proof fn lemma_scnt_mk(l: u32, a: Tree, b: Tree, tv: int)
+    ensures #[trigger] scnt(mk(l, a, b), tv) == (scnt(a, tv) + scnt(b, tv)) / 2 {}
+pub type NodeID = usize;
+/// the diagram stored under a node id (ASSUMED: a node id denotes one diagram within a GC epoch; the cache is cleared
+/// by `clear_if_invalid` when the epoch or the variable count changes)
+pub uninterp spec fn tree_of(id: NodeID) -> Tree;
+/// stub of the HashMap inside SatCountCache
+pub struct NodeMap<N> { pub m: Ghost<Map<NodeID, N>> }
+impl<N> NodeMap<N> {
+    pub open spec fn view(&self) -> Map<NodeID, N> { self.m@ }
+    #[verifier::external_body]
+    pub fn get(&self, k: &NodeID) -> (r: Option<&N>)
+        ensures match r { Some(v) => self@.contains_key(*k) && *v == self@[*k], None => !self@.contains_key(*k) }
+    { unimplemented!() }
+    #[verifier::external_body]
+    pub fn insert(&mut self, k: NodeID, v: N) -> (r: Option<N>)
+        ensures final(self)@ == old(self)@.insert(k, v)
+    { unimplemented!() }
+}
+pub struct SatCountCache<N, S> { pub map: NodeMap<N>, pub cache_all: bool, pub s: Ghost<S> }
+pub open spec fn cache_valid<N: SatCountNumber, S>(c: &SatCountCache<N, S>, tv: int) -> bool {
+    forall|id: NodeID| #[trigger] c.map@.contains_key(id) ==> c.map@[id].nv() == scnt(tree_of(id), tv)
+}
+
 // ---------- environment stubs (ASSUMED manager contract) ----------
 pub type LevelNo = u32;
 pub type VarNo = u32;
@@ -720,6 +777,7 @@ pub type Borrowed<'a, E> = &'a E;
 pub trait Edge: Sized + Ord {
     spec fn view(&self) -> Tree;
     fn borrowed(&self) -> (r: Borrowed<'_, Self>) ensures r.view() == self.view();
+    fn node_id(&self) -> (r: NodeID) ensures self.view() is Inner ==> tree_of(r) == self.view();
 }
 pub trait LevelSpec { spec fn level_spec(&self) -> u32; }
 pub trait InnerNode<E: Edge>: Sized + LevelSpec {
@@ -730,6 +788,7 @@ pub trait InnerNode<E: Edge>: Sized + LevelSpec {
     fn child(&self, n: usize) -> (r: Borrowed<'_, E>)
         requires n < 2
         ensures r.view() == (if n == 0 { self.then_spec() } else { self.else_spec() });
+    fn ref_count(&self) -> usize;
 }
 pub trait HasLevel: LevelSpec {
     fn level(&self) -> (l: LevelNo) ensures l == self.level_spec();
@@ -795,6 +854,11 @@ pub trait Manager: Sized {
     fn level(&self, no: LevelNo) -> (r: Self::LevelView<'_>)
         requires (no as int) < self.num_levels_spec()
         ensures r.level_no_spec() == no;
+    spec fn level_to_var_spec(&self, l: int) -> int;
+    fn level_to_var(&self, level: LevelNo) -> (v: VarNo)
+        requires (level as int) < self.num_levels_spec()
+        ensures v as int == self.level_to_var_spec(level as int), 0 <= (v as int) < self.num_levels_spec(),
+            self.var_to_level_spec(v as int) == level as int;
     fn var_to_level(&self, var: VarNo) -> (l: LevelNo)
         requires (var as int) < self.num_levels_spec()
         ensures l as int == self.var_to_level_spec(var as int), (l as int) < self.num_levels_spec() <= u32::MAX as int;
@@ -850,6 +914,12 @@ impl<M: Manager> Recursor<M> for SequentialRecursor {
     fn should_switch_to_sequential(self) -> bool { false }
 }
 
+
+/// the cube vector (indexed by variable) read as a constraint on assignments (indexed by level)
+pub open spec fn cube_allows<M: Manager>(m: &M, c: Seq<OptBool>, env: Env, from: int) -> bool {
+    forall|l: int| from <= l < m.num_levels_spec() && c[m.level_to_var_spec(l)] != OptBool::None
+        ==> #[trigger] env(l) == (c[m.level_to_var_spec(l)] == OptBool::True)
+}
 // ---------- items copied from the real crate ----------
 //@item file=crates/oxidd-rules-bdd/src/simple/mod.rs path=enum:BDDTerminal attrs="#[derive(Clone, Copy, PartialEq, Eq, Structural)]" vis=pub
 //@end
@@ -876,6 +946,14 @@ pub open spec fn bo_code(op: BooleanOperator) -> u8 {
         BooleanOperator::Imp => BDDOp::Imp as u8, BooleanOperator::ImpStrict => BDDOp::ImpStrict as u8,
     }
 }
+//@item file=crates/oxidd-core/src/util/mod.rs path=enum:OptBool attrs="#[derive(Clone, Copy, PartialEq, Eq, Structural)] #[repr(i8)]" vis=pub
+//@end
+impl vstd::std_specs::convert::FromSpecImpl<bool> for OptBool {
+    open spec fn obeys_from_spec() -> bool { true }
+    open spec fn from_spec(v: bool) -> OptBool { if v { OptBool::True } else { OptBool::False } }
+}
+//@item file=crates/oxidd-core/src/util/mod.rs path=impl:From<bool>~for~OptBool props=C13
+//@end
 // ---------- per-operator cache invariants (the meaning of a cache key) ----------
 pub open spec fn res_top_ok2(r: Tree, a: Tree, b: Tree) -> bool { top(r) >= top(a) || top(r) >= top(b) }
 pub open spec fn not_post(f: Tree, n: int, r: Tree) -> bool {
@@ -952,7 +1030,7 @@ impl BDDOp {
 
 mod apply_rec {
 use super::*;
-broadcast use {leaf_lemmas, quant_lemmas, quant2_lemmas, restrict_lemmas, subst_lemmas, pick_lemmas};
+broadcast use {leaf_lemmas, quant_lemmas, quant2_lemmas, restrict_lemmas, subst_lemmas, pick_lemmas, count_lemmas};
 //@fn file=crates/oxidd-rules-bdd/src/simple/apply_rec.rs path=fn:apply_not nodecr expect=R5:1 props=C02,C06
 //@spec
     requires edge_ok::<M::Edge>(), ok(f.view(), manager.num_levels_spec()),
@@ -1085,6 +1163,28 @@ where M: Manager<Terminal = BDDTerminal> + HasApplyCache<M, BDDOp>, M::InnerNode
 //@spec
     requires edge_ok::<M::Edge>(), ok(edge.view(), manager.num_levels_spec()), ok(literal_set.view(), manager.num_levels_spec()),
     ensures res is Ok ==> pick_ok(edge.view(), literal_set.view(), res->Ok_0.view()) && ok(res->Ok_0.view(), manager.num_levels_spec()),
+    decreases edge.view(),
+//@end
+//@fn file=crates/oxidd-rules-bdd/src/simple/apply_rec.rs path=impl:BooleanFunction~for~BDDFunction<F>/fn:sat_count_edge/fn:inner rename=sat_count_edge__inner expect=R13:1 props=C12
+//@header
+fn sat_count_edge__inner<M: Manager<Terminal = BDDTerminal>, N: SatCountNumber, S>(manager: &M, e: Borrowed<M::Edge>, terminal_val: &N, cache: &mut SatCountCache<N, S>) -> (res: N)
+//@spec
+    requires num_ok::<N>(), wf(e.view()), cache_valid(old(cache), terminal_val.nv()),
+    ensures res.nv() == scnt(e.view(), terminal_val.nv()), cache_valid(final(cache), terminal_val.nv()),
+    decreases e.view(),
+//@end
+//@fn file=crates/oxidd-rules-bdd/src/simple/apply_rec.rs path=impl:BooleanFunction~for~BDDFunction<F>/fn:pick_cube_edge/fn:inner rename=pick_cube_edge__inner props=C13
+//@spec
+    requires edge_ok::<M::Edge>(), ok(edge.view(), manager.num_levels_spec()), edge.view() != ff(),
+        old(cube)@.len() == manager.num_levels_spec(),
+        forall|l: int| top(edge.view()) <= l < manager.num_levels_spec() ==> old(cube)@[#[trigger] manager.level_to_var_spec(l)] == OptBool::None,
+        forall|l: int| 0 <= l < manager.num_levels_spec() ==> 0 <= #[trigger] manager.level_to_var_spec(l) < manager.num_levels_spec() && manager.var_to_level_spec(manager.level_to_var_spec(l)) == l,
+        forall|mm: &M, ee: &M::Edge, l: LevelNo| (ee.view() matches Tree::Inner(k, a, b) && k == l && *a != ff() && *b != ff()) ==> #[trigger] choice.requires((mm, ee, l)),
+    ensures final(cube)@.len() == old(cube)@.len(),
+        // positions of levels above the diagram are untouched
+        forall|l: int| 0 <= l < top(edge.view()) && l < manager.num_levels_spec() ==> final(cube)@[#[trigger] manager.level_to_var_spec(l)] == old(cube)@[manager.level_to_var_spec(l)],
+        // the literals written describe a cube that implies the function
+        forall|env: Env| cube_allows(manager, final(cube)@, env, top(edge.view())) ==> #[trigger] sem(edge.view(), env),
     decreases edge.view(),
 //@end
 //@fn file=crates/oxidd-rules-bdd/src/simple/apply_rec.rs path=impl:BooleanFunction~for~BDDFunction<F>/fn:and_edge props=C02
